@@ -896,6 +896,44 @@ Section GridAlg.
 
   (* ================================================================================================ compute_grid_layout *)
 
+  Definition grid_main (st : GStyle T) (P : Pre) (est : list PL.child) (inflow : list (nat * GStyle T)) (flags : list bool)
+             (oof : list OofChild) (inp : GIn T) : Alg :=
+    let '(ec, er) := explicit_counts st P in
+    match place st ec er est inflow with
+    | PB.Err _ => Ret panic_out
+    | PB.Ok (m, placed_items) =>
+        let col_counts := PL.track_counts m PB.Horizontal in
+        let row_counts := PL.track_counts m PB.Vertical in
+        let cols0 := initialize_grid_tracks (tc_of col_counts) (gs_template_columns st) (gs_auto_columns st)
+                                            (lp_sfn (width (gs_gap st))) (column_is_occupied m) in
+        let rows0 := initialize_grid_tracks (tc_of row_counts) (gs_template_rows st) (gs_auto_rows st)
+                                            (lp_sfn (height (gs_gap st))) (row_is_occupied m) in
+        match PL.mapM (make_item st inflow col_counts row_counts cols0 rows0) placed_items with
+        | PB.Err _ => Ret panic_out
+        | PB.Ok items0 =>
+            run (fun c => nth c flags false) (m_size_grid st P inp (mkSS cols0 rows0 zero zero items0))
+                (fun '(z, continue) =>
+                   if negb continue then Ret (from_outer_size (z_border_box z))
+                   else
+                     let s := z_state z in
+                     let jc := opt_unwrap_or (gs_justify_content st) AStretch in
+                     let ac := opt_unwrap_or (gs_align_content st) AStretch in
+                     let cols := align_tracks (width (z_content_box z)) (r_left (p_padding P)) (r_left (p_border P)) (ss_cols s) jc in
+                     let rows := align_tracks (height (z_content_box z)) (r_top (p_padding P)) (r_top (p_border P)) (ss_rows s) ac in
+                     let items := sort_by (fun a b => Nat.ltb (g_node a) (g_node b)) (ss_items s) in
+                     let cas := to_ae_ib st in
+                     inflow_pass cas cols rows items 0 size_ZERO []
+                       (fun content placed =>
+                          out_of_flow_pass P cas col_counts row_counts (z_border_box z) cols rows oof 0 (length items) content
+                            (fun content' =>
+                               match container_baseline placed with
+                               | None => Ret (from_outer_size (z_border_box z))
+                               | Some b => Ret (mkOutput (z_border_box z) content' (mkPoint None (Some b))
+                                                         margin_set_ZERO margin_set_ZERO false)
+                               end)))
+        end
+    end.
+
   (* compute_grid_layout, given the four things it derives from the child-style list:
      `est` the placement styles feeding the size estimate, `inflow` the in-flow children (index, style), `flags` which indices are
      in flow, `oof` the children as the final loop sees them *)
@@ -904,42 +942,7 @@ Section GridAlg.
     let P := grid_pre st inp in
     match gi_mode inp, width (p_outer P), height (p_outer P) with
     | Engine.ComputeSize, Some w, Some h => Ret (from_outer_size (mkSize w h))
-    | _, _, _ =>
-        let '(ec, er) := explicit_counts st P in
-        match place st ec er est inflow with
-        | PB.Err _ => Ret panic_out
-        | PB.Ok (m, placed_items) =>
-            let col_counts := PL.track_counts m PB.Horizontal in
-            let row_counts := PL.track_counts m PB.Vertical in
-            let cols0 := initialize_grid_tracks (tc_of col_counts) (gs_template_columns st) (gs_auto_columns st)
-                                                (lp_sfn (width (gs_gap st))) (column_is_occupied m) in
-            let rows0 := initialize_grid_tracks (tc_of row_counts) (gs_template_rows st) (gs_auto_rows st)
-                                                (lp_sfn (height (gs_gap st))) (row_is_occupied m) in
-            match PL.mapM (make_item st inflow col_counts row_counts cols0 rows0) placed_items with
-            | PB.Err _ => Ret panic_out
-            | PB.Ok items0 =>
-                run (fun c => nth c flags false) (m_size_grid st P inp (mkSS cols0 rows0 zero zero items0))
-                    (fun '(z, continue) =>
-                       if negb continue then Ret (from_outer_size (z_border_box z))
-                       else
-                         let s := z_state z in
-                         let jc := opt_unwrap_or (gs_justify_content st) AStretch in
-                         let ac := opt_unwrap_or (gs_align_content st) AStretch in
-                         let cols := align_tracks (width (z_content_box z)) (r_left (p_padding P)) (r_left (p_border P)) (ss_cols s) jc in
-                         let rows := align_tracks (height (z_content_box z)) (r_top (p_padding P)) (r_top (p_border P)) (ss_rows s) ac in
-                         let items := sort_by (fun a b => Nat.ltb (g_node a) (g_node b)) (ss_items s) in
-                         let cas := to_ae_ib st in
-                         inflow_pass cas cols rows items 0 size_ZERO []
-                           (fun content placed =>
-                              out_of_flow_pass P cas col_counts row_counts (z_border_box z) cols rows oof 0 (length items) content
-                                (fun content' =>
-                                   match container_baseline placed with
-                                   | None => Ret (from_outer_size (z_border_box z))
-                                   | Some b => Ret (mkOutput (z_border_box z) content' (mkPoint None (Some b))
-                                                             margin_set_ZERO margin_set_ZERO false)
-                                   end)))
-            end
-        end
+    | _, _, _ => grid_main st P est inflow flags oof inp
     end.
 
   Definition grid_alg (st : GStyle T) (children : list (GStyle T)) (inp : GIn T) : Alg :=
